@@ -311,8 +311,21 @@ Section Sim.
   Lemma tm_agree_trans g g' tm1 tm2 tm3 :
     (g <= g')%nat -> tm_agree g tm1 tm2 -> tm_agree g' tm2 tm3 -> tm_agree g tm1 tm3.
   Proof. intros G A B n H. rewrite B by lia. apply A; auto. Qed.
+  Lemma tget_tset_same n z tm : tget n (tset n z tm) = Some z.
+  Proof.
+    induction tm as [|[k x] r IH]; cbn [tset tget]. rewrite Nat.eqb_refl; reflexivity.
+    destruct (Nat.eqb n k) eqn:E; cbn [tget]. rewrite Nat.eqb_refl; reflexivity. rewrite E. exact IH.
+  Qed.
+  Lemma tget_tset_other k n z tm : k <> n -> tget k (tset n z tm) = tget k tm.
+  Proof.
+    intros NE. induction tm as [|[j x] r IH]; cbn [tset tget].
+    - destruct (Nat.eqb k n) eqn:E; auto. apply Nat.eqb_eq in E. contradiction.
+    - destruct (Nat.eqb n j) eqn:E; cbn [tget].
+      + apply Nat.eqb_eq in E. subst j. destruct (Nat.eqb k n) eqn:E2; auto. apply Nat.eqb_eq in E2. contradiction.
+      + destruct (Nat.eqb k j); auto.
+  Qed.
   Lemma tm_agree_set g n z tm : (g <= n)%nat -> tm_agree g tm (tset n z tm).
-  Proof. intros G k H. unfold tset. cbn [tget]. destruct (Nat.eqb k n) eqn:E; auto. apply Nat.eqb_eq in E. lia. Qed.
+  Proof. intros G k H. apply tget_tset_other. lia. Qed.
 
   Definition benv (env : fenv L) (cur : option nat) (tb : Z) (cb : list (finstr L)) : Prop :=
     forall id, cur = Some id -> env (LLoopEnd id) = Some (tb, cb).
@@ -494,7 +507,7 @@ Section Sim.
       destruct (1 <? n) eqn:E1.
       + apply Z.ltb_lt in E1.
         assert (BO' : back_ok (LKCount (n - 1)) (FCondGoto KIf (count_cond L fl (FTemp tn)) lbl) lbl (tset tn (n - 1) tm1) g0 gb).
-        { exists tn. repeat split; try lia. unfold tset. cbn [tget]. rewrite Nat.eqb_refl. reflexivity. }
+        { exists tn. repeat split; try lia. apply tget_tset_same. }
         destruct (PI t b (LKCount (n - 1)) _ st' gb g0 id env tail cend _ lbl _ R BK WF EL EO EE NT G0 BO') as (tm' & A2 & T2).
         exists tm'. split.
         { eapply tm_agree_trans; [apply Nat.le_refl| eapply tm_agree_weaken; eauto |].
@@ -885,7 +898,7 @@ Section Sim.
         { eapply reaches_trans. apply step_nop; auto. exact I.
           apply (step_set env t (FTemp g) count _ st tm n r1); auto. }
         norm_app. fold loopc.
-        assert (TGN : tget g (tset g n tm) = Some n) by (unfold tset; cbn [tget]; rewrite Nat.eqb_refl; reflexivity).
+        assert (TGN : tget g (tset g n tm) = Some n) by apply tget_tset_same.
         destruct (n =? 0) eqn:N0.
         * apply Z.eqb_eq in N0. inversion R; subst r st'. cbn [target].
           exists (tset g n tm). split. apply tm_agree_set. lia.
